@@ -139,6 +139,9 @@ def run(rep, pdb, tier):
                     "or allow-listed by name with a mathematical reason")
             status, why = classify(pdb, c2, fn, name, n, dn, d, nm, var)
             rep.add(key, rule, status, n, "divisor %s: %s" % (show(d, c2)[:80], why))
+    # ---- no numerical decision is taken by the lexicographic order of complex values
+    from .c01 import rule_magnitude
+    n_cmp = rule_magnitude(rep, pdb, ["polynomial::Polynomial<f64>::roots", "%s::roots" % PC], key="magnitude")
     # ---- Cardano: the triple-root shortcut is taken only when d0 == 0 AND d1 == 0
     cs = pdb.fn("%s::cubic_solve" % PC)
     rule = "in cubic_solve the shortcut that returns one value three times is control-dependent on both discriminant quantities being zero (d0 == 0 && d1 == 0)"
@@ -160,6 +163,46 @@ def run(rep, pdb, tier):
             okc = len(tested) == 2
             det = "shortcut guarded by %d zero tests" % len(tested)
         rep.add("cardano-branch", rule, okc, copies[0].node if copies else cs["body"], det)
+    # ---- snap to the real axis: the component that is dropped is the one that was tested small
+    snaps = [e for e in effs if e.kind == "assign" and e.loops and e.value[0] == "call" and str(e.value[1]).endswith("Complex<T>::new") and e.value[2] == ("field", e.target, "real") and e.value[3] == num(0)]
+    rule = "a computed root is snapped to the real axis (imaginary part dropped) only under |imag| <= c*|real| with the dropped component on the small side"
+    if len(snaps) != 1:
+        rep.missing("snap", rule, "snap statement not found (%d)" % len(snaps))
+    else:
+        e = snaps[0]
+        x = e.target
+        fs = facts(ctx, e.node)
+        good = False
+        for f in fs:
+            if f[0] == "cmp" and f[1] in ("<=", "<") and f[2][0] == "call" and str(f[2][1]).endswith("::abs") and f[2][2] == ("field", x, "imag"):
+                rhs = f[3]
+                facs = []
+
+                def fl(t):
+                    if t[0] == "op" and t[1] == "*":
+                        fl(t[2])
+                        fl(t[3])
+                    else:
+                        facs.append(t)
+                fl(rhs)
+                if any(t[0] == "call" and str(t[1]).endswith("::abs") and t[2] == ("field", x, "real") for t in facs) and all(
+                        t[0] in ("num", "def") or (t[0] == "call" and str(t[1]).endswith("::abs")) for t in facs):
+                    good = True
+        rep.add("snap", rule, good, e.node, "")
+    # ---- Laguerre escape step cannot vanish
+    lg = pdb.fn("%s::laguer" % PC)
+    rule = "the fallback step of laguer (taken when both denominators vanish) has modulus positive-constant + |x|, so it cannot be zero and be mistaken for convergence (`*x == x1`)"
+    if lg is None:
+        rep.missing("escape-step", rule, "laguer not found")
+    else:
+        lc = Ctx.for_fn(pdb, lg)
+        pol = [lc.term(n) for n in walk(lg["body"]) if n.get("k") == "Call" and str(callee_path(n)).endswith("::polar")]
+        ok = len(pol) == 1
+        if ok:
+            r_ = pol[0][2]
+            ok = r_[0] == "op" and r_[1] == "+" and ((r_[2][0] == "num" and r_[2][1] > 0 and r_[3][0] == "call" and str(r_[3][1]).endswith("::abs")) or
+                                                  (r_[3][0] == "num" and r_[3][1] > 0 and r_[2][0] == "call" and str(r_[2][1]).endswith("::abs")))
+        rep.add("escape-step", rule, ok, lg["body"], "%s" % (show(pol[0], lc)[:120] if pol else None), where=loc(lg["body"]))
     # ---- polish
     rule = "refinement runs laguer on each poly_roots[j], j in 0..degree, against a clone of the undeflated coefficients that is never written"
     lag = pdb.fn("%s::laguer" % PC)
